@@ -60,7 +60,8 @@ Back(e, sol) ==
             LET x == ProcExpect(rb.proc, sol.proc) IN       \* EITHER band: any projection is accepted
             IF (x = "EITHER" /\ e.proc \in {"None", "equal", "differs"}) \/ e.proc = x THEN "" ELSE "C14.ProcessorName"
        [] e.what = "Date" ->
-            IF e.date = Same(rb.date, sol.date, "equal") THEN "" ELSE "C14.Date"
+            IF e.date = Same(rb.date, sol.date, "equal") /\ (e.date = "None" \/ TzOK(sol.date, e.tz))
+            THEN "" ELSE "C14.Date"
        [] OTHER -> "machinery/unknown-item"
 
 (* file-history traces (SolutionFile.tla): every event carries the file state observed before it (`pre`: which  *)
